@@ -15,7 +15,7 @@ import (
 
 func init() {
 	suites["bloom"] = suite{
-		rule: "C35: (1) index(h1,h2,i,m) on boundary/random uint64 values vs model and vs the statement's formula; (2) NewBloomFilter over an (n, rate) grid incl. rates around 0.7071 and the extremes: accept/reject vs model, oracle m>=1 and k>=1 on every accepted configuration, one add+exists on it; (3) script-level episodes on the fake (arbitrary k incl. 0, ragged argument lists, colliding indexes) vs the Lean script model; (4) end-to-end episodes: real NewBloomFilter/Add/AddMulti/Exists/ExistsMulti/Count/Reset/Delete against the fake, server calls and answers vs the Lean glue+script model, '!exists' on every item added since the last reset/delete; non-trivial = distinct op with at least one index/key",
+		rule: "C35: (1) index(h1,h2,i,m) on boundary/random uint64 values vs model and vs the statement's formula; (2) NewBloomFilter over an (n, rate) grid incl. rates around 0.7071 and the extremes: accept/reject vs model, oracle m>=1 and k>=1 on every accepted configuration, one add+exists on it; (3) script-level episodes on the fake (arbitrary k incl. 0, ragged argument lists, colliding indexes) vs the Lean script model; (4) end-to-end episodes: real NewBloomFilter/Add/AddMulti/Exists/ExistsMulti/Count/Reset/Delete against the fake, server calls and answers vs the Lean glue+script model, '!exists' on every item added since the last reset/delete; (5) overlapping calls on ONE filter value: 'overlap A / B' lines park call A inside the fake client before its arguments are read, run call B (other items) to completion, release A (add/add, add/exists, exists/add), then 4-8 free-running goroutines doing Add/AddMulti/Exists(Multi) with small pre-read delays, emitted in the fake's execution order; the argv each call handed to the client is compared with the argv recomputed from its own items (harness) and with the Lean model's argv (model line), and every item whose Add returned nil gets an '!exists'; non-trivial = distinct op with at least one index/key",
 		run:  runBloom,
 		replay: func(c *Ctx, lines []string) {
 			ep := &bloomEp{}
